@@ -360,6 +360,7 @@ func genScenario(r *Rng, pf pipeProfile) PScn {
 		p.At = r.Chance(15) // all tags of the package written with the other marker
 		s.Pkgs = append(s.Pkgs, p)
 	}
+	s.Peek = r.Chance(30)
 	// imports: later index may be imported by earlier index (acyclic)
 	for i := range s.Pkgs {
 		for j := i + 1; j < len(s.Pkgs); j++ {
